@@ -57,10 +57,10 @@ def seg (t : String) (pi : Option Int := none) : Seg := { text := strBytes t, pi
 
 example : RootOK exNode = true ∧ NodeWF exNode = true ∧ EmitOK exNode = true ∧ WT exNode exVal = true := by decide
 example : cmpM GenCfg.fixed exNode .ptr exVal [seg "A"] 3 (seg "4" (some 4)) = .set true := by decide
-/-- Known finding `nil-intercept`: with the operand `nil`, the emitted code of the current tree answers
+/-- Known finding `nil-intercept`: with the operand `nil`, the emitted code of the tree at the pinned commit (GenCfg.original; since repaired by a `fix:` commit) answered
 for the pointer field `P` itself although the path continues to `P.B`. -/
 theorem repo_not_correct :
-    cmpAccepts exNode exVal [seg "P", seg "B"] 1 (seg "nil") (cmpM GenCfg.repo exNode .ptr exVal [seg "P", seg "B"] 1 (seg "nil")) = false := by
+    cmpAccepts exNode exVal [seg "P", seg "B"] 1 (seg "nil") (cmpM GenCfg.original exNode .ptr exVal [seg "P", seg "B"] 1 (seg "nil")) = false := by
   decide
 end NonVacuity
 
